@@ -1,5 +1,5 @@
 (* C05 — A crash at any step leaves a log that Recover reopens consistently (the log-file level). *)
-From KV Require Import Base Model Codec CodecProofs RecoverProofs LogInv OpenProofs CrashDir CrashDirProofs.
+From KV Require Import Base Model Codec CodecProofs RecoverProofs LogInv OpenProofs CrashDir CrashDirProofs RecoverCrash RecoverCrashProofs.
 
 (* a crash part-way through the append of a record (any proper prefix of the record reached the file),
    after any number of complete records, whatever the index file holds: Recover cuts exactly the torn record,
@@ -155,3 +155,47 @@ Theorem C05_head_tail_override_crash_safe :
            (fs_run (mkDir (pre ++ [hd]) (mkTmp (Some keep) (Some ix))) (firstn k (prog_head_tail_override (sbase hd) n v))).
 Proof. exact head_tail_override_crash_safe. Qed.
 Print Assumptions C05_head_tail_override_crash_safe.
+
+(* ---------- Recover itself can be interrupted (RecoverCrash.v: Segment.Recover as a program of file-system steps on the
+   log, the index and the two temporary files <log>.recover and <index>.tmp; the program is compared with the FS tap of
+   the real Recover on every damaged head of the C05 / C07 / C13 runs).
+   For ANY bytes in the head log file, any or no index file, any stale temporary files left by earlier attempts, any
+   number k of completed steps and any part j of an append in flight: running Recover on what the crash left gives the
+   same log file as the uninterrupted Recover, an index file that is the same or absent (absent = rebuilt on open),
+   and that segment passes Check.  "Recovering again changes nothing" therefore also holds when the first recovery
+   never finished. *)
+Theorem C05_recover_restartable :
+  forall crc H, crc_range crc -> (forall k, 0 <= H k < two64z) ->
+  forall p base b idx newlog idx',
+  bytes_ok b -> zlen b < two63 -> 0 <= base < two63 ->
+  (forall v m nxt, log_version b base = Ok v -> read_rec crc v b (hdr_size v) = Ok (m, nxt) -> moff m = base) ->
+  recover_bytes crc H p base b idx = Ok (newlog, idx') ->
+  forall prog stale_recover_tmp stale_index_tmp k j,
+  recover_prog crc H p base b idx = Ok prog ->
+  let img := rimage (mkRf b stale_recover_tmp idx stale_index_tmp) prog k j in
+  exists i'',
+    recover_bytes crc H p base (rlog img) (ridx img) = Ok (newlog, i'') /\ (i'' = idx' \/ i'' = None) /\
+    check_bytes crc H p base newlog i'' = Ok tt.
+Proof. exact recover_restartable. Qed.
+Print Assumptions C05_recover_restartable.
+
+(* the program run to its end leaves exactly what recover_bytes computes - the function the theorems above and the C07
+   theorems are about - and no temporary copy of the log *)
+Theorem C05_recover_program_computes_recover :
+  forall crc H, crc_range crc -> (forall k, 0 <= H k < two64z) ->
+  forall p base b idx newlog idx',
+  bytes_ok b -> 0 <= base < two63 ->
+  (forall v m nxt, log_version b base = Ok v -> read_rec crc v b (hdr_size v) = Ok (m, nxt) -> moff m = base) ->
+  recover_bytes crc H p base b idx = Ok (newlog, idx') ->
+  forall prog rt it,
+  recover_prog crc H p base b idx = Ok prog ->
+  rlog (rrun (mkRf b rt idx it) prog) = newlog /\ ridx (rrun (mkRf b rt idx it) prog) = idx' /\
+  rrtmp (rrun (mkRf b rt idx it) prog) = None.
+Proof. exact recover_prog_computes. Qed.
+Print Assumptions C05_recover_program_computes_recover.
+
+(* non-vacuity: a concrete head (two records, three bytes of a torn third, an index one item short) meets the premises;
+   its Recover has 13 steps, and all its crash images (every k, every j up to the longest append) were evaluated *)
+Theorem C05_recover_restartable_premises_hold : ex_ok = true.
+Proof. exact recover_restartable_example. Qed.
+Print Assumptions C05_recover_restartable_premises_hold.
